@@ -19,7 +19,13 @@
     §5 no other error  `ctfTRu_no_internal_error_partial` (Algorithm 2 never raises outside the crash class), its parts
                        `simplify_no_error_outside_class` / `simplify_no_error_outside_risk`, `line2_total`,
                        `sigmaTRDomain_no_error`, `transportFactors_no_error`; `sigmaTR_sound`
-  OPEN (stated below): ctf_no_internal_error for Algorithm 3, ctfTRu_sound, ctfTR_sound.
+    §6 Algorithm 3     `ctfTR_zero_only_from_simplify`, `ctfTR_answer_shape`, `ctfTR_event_shape`,
+                       `ctfTR_q_good` (Q of Algorithm 2 is never Zero() and has the expected vocabulary),
+                       `ctfTR_no_internal_error_partial` (Algorithm 3 never raises outside its crash classes),
+                       `ctfTR_answers_or_fails`
+  OPEN (stated below): ctfTR_no_internal_error on the crash classes (false on one, open on two).
+  The VALUE clause is in Y0/Props/C09Sound.lean: `ctfTRu_sound_partial` (Algorithm 2, proved inside the decidable class
+  `ctfSoundClass`), `ctfTR_sound_of_parts` (Algorithm 3, reduced to two named identities); OPEN there: ctfTR_sound.
 
   Reading guide for §5 (definitions in Y0/Lemmas/CtfTrSimplify.lean, CtfTrLine2.lean, CtfTrSigma.lean, CtfTrTotal.lean):
     Reflexive e      := e.any fun p => p.1.ivs.any (·.name == p.1.name)          some event variable is `Y_y`
@@ -39,6 +45,8 @@
 import Y0.Model.CtfTr
 import Y0.Props.C19
 import Y0.Lemmas.CtfTrTotal
+import Y0.Lemmas.CtfTrAlg3Total
+import Y0.Lemmas.CtfTrAlg3QGood
 
 namespace Y0
 namespace CtfTr
@@ -195,45 +203,39 @@ theorem ctfTRu_trichotomy (target : MG Name) (ds : List Domain) (e : Event) (hv 
     rw [hk, ctfTRu_invalid_iff, hv] at h
     cases h
 
-/-- an "invalid input" outcome of ctfTR is a rejection by its own validator or comes from a part after validation
-(`derive` / `line4` are parameters; for the instantiation of the harness they raise internal errors only) -/
-theorem ctfTR_invalid_of_validator (derive : MG Name → Event → Event → Except Err Event)
-    (line4 : Event → Event → Expr → Event → Except Err (Option Answer))
-    (target : MG Name) (ds : List Domain) (o c : Event) (err : Err) (h : validateC target ds o c = .error err) :
-    ctfTR derive line4 target ds o c = .error err := by
+/-- a rejection by the conditional validator is the result of ctfTR -/
+theorem ctfTR_invalid_of_validator (target : MG Name) (ds : List Domain) (o c : Event) (err : Err)
+    (h : validateC target ds o c = .error err) : ctfTR target ds o c = .error err := by
   unfold ctfTR; rw [h]
 
-/-- **Trichotomy of ctfTR** relative to its parts: with an accepted input, the result is whatever the composition
-`derive ; ctfTRu ; line4` produces — an answer, FAIL, or an error raised by one of the three parts. -/
-theorem ctfTR_trichotomy (derive : MG Name → Event → Event → Except Err Event)
-    (line4 : Event → Event → Expr → Event → Except Err (Option Answer))
-    (target : MG Name) (ds : List Domain) (o c : Event) (hv : validateC target ds o c = .ok ()) :
-    (∃ a, ctfTR derive line4 target ds o c = .ok (some a)) ∨ ctfTR derive line4 target ds o c = .ok none ∨
-    (∃ err, derive target o c = .error err ∧ ctfTR derive line4 target ds o c = .error err) ∨
-    (∃ d err, derive target o c = .ok d ∧ ctfTRu target ds d = .error err ∧ ctfTR derive line4 target ds o c = .error err) ∨
-    (∃ d x ev err, derive target o c = .ok d ∧ ctfTRu target ds d = .ok (some (x, some ev)) ∧
-        line4 o c x ev = .error err ∧ ctfTR derive line4 target ds o c = .error err) := by
-  unfold ctfTR; rw [hv]; simp only []
-  cases hd : derive target o c with
-  | error err => exact Or.inr (Or.inr (Or.inl ⟨err, rfl, by simp [bind, Except.bind]⟩))
-  | ok d =>
-    simp only [bind, Except.bind]
-    cases hu : ctfTRu target ds d with
-    | error err => exact Or.inr (Or.inr (Or.inr (Or.inl ⟨d, err, rfl, hu, rfl⟩)))
-    | ok r =>
-      cases r with
-      | none => exact Or.inr (Or.inl rfl)
-      | some a =>
-        obtain ⟨x, oev⟩ := a
-        cases oev with
-        | none => exact Or.inl ⟨(x, none), rfl⟩
-        | some ev =>
-          simp only []
-          cases hl : line4 o c x ev with
-          | error err => exact Or.inr (Or.inr (Or.inr (Or.inr ⟨d, x, ev, err, rfl, hu, hl, rfl⟩)))
-          | ok r' => cases r' with
-            | none => exact Or.inr (Or.inl rfl)
-            | some a' => exact Or.inl ⟨a', rfl⟩
+/-- an "invalid input" outcome of ctfTR is exactly a rejection by its own validator: whatever the derivation of `D*`,
+Algorithm 2 (its validator included) or the final checks raise after validation is another error -/
+theorem ctfTR_invalid_iff (target : MG Name) (ds : List Domain) (o c : Event) (k : String) :
+    ctfTR target ds o c = .error (.invalidInput k) ↔ validateC target ds o c = .error (.invalidInput k) := by
+  unfold ctfTR
+  cases hv : validateC target ds o c with
+  | error err => simp
+  | ok u =>
+    simp only []
+    constructor
+    · intro h; exact absurd h (by unfold ctfTRCore; exact afterValidation_not_invalid _ k)
+    · intro h; cases h
+
+/-- **Trichotomy of ctfTR.**  An input accepted by the validator is answered, refused (FAIL), or ends in an error that
+is NOT a validation error (what the property forbids; `ctfTR_no_internal_error_partial` below excludes it outside the
+stated crash classes). -/
+theorem ctfTR_trichotomy (target : MG Name) (ds : List Domain) (o c : Event) (hv : validateC target ds o c = .ok ()) :
+    (∃ a, ctfTR target ds o c = .ok (some a)) ∨ ctfTR target ds o c = .ok none ∨
+    ∃ err, ctfTR target ds o c = .error err ∧ ∀ k, err ≠ .invalidInput k := by
+  cases h : ctfTR target ds o c with
+  | ok r => cases r with
+    | none => exact Or.inr (Or.inl rfl)
+    | some a => exact Or.inl ⟨a, rfl⟩
+  | error err =>
+    refine Or.inr (Or.inr ⟨err, rfl, ?_⟩)
+    intro k hk
+    rw [hk, ctfTR_invalid_iff, hv] at h
+    cases h
 
 -- OPEN: ctf_no_internal_error
 --   theorem ctf_no_internal_error (hv : validateU target ds e = .ok ()) (hwf : target.WF ∧ ∀ d ∈ ds, d.graph.WF) :
@@ -386,20 +388,14 @@ theorem transportFactors_all (ds : List Domain) : ∀ (fs : List Event) (qs : Li
               simp [pure, Except.pure] at h; subst h
               exact .cons (sigmaTR_uses_usable_domain _ ds q hr) (transportFactors_all ds fs qs' hr')
 
--- OPEN: ctfTRu_sound / ctfTR_sound (the value clause)
---   theorem ctfTRu_sound (hv : validateU target ds e = .ok ()) (h : ctfTRu target ds e = .ok (some (x, some ev)))
---       (F : Family) (hF : F.SelectionCompatible target Δ)  -- Δ: selection marks and policy variables of each domain
---       (M : Fscm.Model) (hM : M induces F.dom none) (ν : Fscm.BaseValues) (hν : ν.Distinct) :
---       den F.env (ν-values of ev) x = probEventOpt M ν e
---   FALSE of the current code for events that give one variable two values, name one variable in two worlds, bind a
---   literal subscript by a summation, or contain a self-intervened variable (known findings value:two_values,
---   value:multi_world, value:literal_bound, value:reflexive — inherited from C19's factorisation findings).  For the
---   remaining events the plan is the composition theorem `ctfTRu_sound_of_parts`: SIMPLIFY preserves the probability
---   (C19 `simplify_prob_partial`), the ctf-factor factorisation gives P*(W* = w*) = Π_i P*(C_i* = c_i*) (C19
---   `factorisation_shape` + Correa et al. Thm 3), each factor is `Q[C_i]` of the target, `Q[C_i]` is the same in a
---   usable domain (`sigmaTR_uses_usable_domain` + the transportability lemma over `Family.SelectionCompatible`) and is
---   computed from the domain's distribution by IDENTIFY (C17 `tian_sound`).  The exact functional-SCM oracle decides
---   the clause on every run.
+-- The value clause (ctfTRu_sound / ctfTR_sound) is the subject of Y0/Props/C09Sound.lean:
+--   `ctfTRu_sound_partial`      PROVED for every validated input whose simplified event is in the decidable class
+--                               `ctfSoundClass` (no hypothesis about any part of the algorithm is left), for every family
+--                               of functional SCMs compatible with the declared domains (Y0/Spec/CtfFamilySpec.lean);
+--   `ctfTR_sound_of_parts`      Algorithm 3 reduced to two named marginalisation-and-independence identities.
+--   FALSE of the current code outside the class: events that give one variable two values, name one variable in two
+--   worlds, bind a literal subscript by a summation, or contain a self-intervened variable (known findings
+--   value:two_values, value:multi_world, value:literal_bound, value:reflexive — inherited from C19's findings).
 
 /-! ## 5. No other error outside the known crash classes -/
 
@@ -590,6 +586,203 @@ example : isAnswerWithEvent (ctfTRu w3Graph [w3Dom] w3Event) = true := by decide
 example : SimplifyRisk w4Event = true := by decide
 example : validateU w3Graph [w3Dom] w4Event = .ok () := by decide +kernel
 example : isInternal "TypeError" (ctfTRu w3Graph [w3Dom] w4Event) = true := by decide +kernel
+
+/-! ## 6. Algorithm 3 (ctfTR): where Zero comes from, the shape of an answer, no other error
+
+`D*` is the event Algorithm 3 derives itself (`line2C`: the union of the ancestral components that contain an outcome
+variable, with the outcomes' values, in ctf-factor form); Algorithm 2 is run on it with its own validator. -/
+
+/-- **Zero only from SIMPLIFY on `D*`**: ctfTR returns an answer without an event only as `Zero()`, and only because
+SIMPLIFY found the derived event `D*` inconsistent -/
+theorem ctfTR_zero_only_from_simplify (target : MG Name) (ds : List Domain) (o c : Event) (x : Expr)
+    (h : ctfTR target ds o c = .ok (some (x, none))) :
+    x = .zero ∧ ∃ dstar dNames, line2C target o c = .ok (dstar, dNames) ∧ simplify target dstar = .ok none := by
+  obtain ⟨_, hrun⟩ := ctfTR_ok_inv target ds o c _ h
+  generalize hr : (some (x, none) : Option Answer) = r at hrun
+  cases hrun with
+  | fail => cases hr
+  | zero dstar dNames x' h2 hu =>
+    cases hr
+    exact ⟨(ctfTRu_zero_only_from_simplify target ds dstar x hu).1, dstar, dNames, h2,
+      (ctfTRu_zero_only_from_simplify target ds dstar x hu).2⟩
+  | answer dstar dNames q simplified a h2 hu h4 =>
+    obtain ⟨expr, _, _, ha⟩ := line4C_ok_inv ds o c dNames q simplified a h4
+    subst ha
+    cases hr
+
+/-- **shape of the expression**: an answer with an event is `Fraction(Sum.safe(Q, A), Sum.safe(Q, B))` where `Q` is the
+expression Algorithm 2 returns for `D*`, `A` = the vertices of `D*` that are neither outcome nor condition vertices,
+`B` = the vertices of `D*` that are not condition vertices, and `A ⊆ B` -/
+theorem ctfTR_answer_shape (target : MG Name) (ds : List Domain) (o c : Event) (x : Expr) (ev : Event)
+    (h : ctfTR target ds o c = .ok (some (x, some ev))) :
+    ∃ dstar dNames q simplified, line2C target o c = .ok (dstar, dNames) ∧
+      ctfTRu target ds dstar = .ok (some (q, some simplified)) ∧
+      x = .frac (TrDsl.sumSafe q ((diff' dNames (eventNames (c ++ o))).map Var.plain))
+        (TrDsl.sumSafe q ((diff' dNames (eventNames c)).map Var.plain)) ∧
+      ∀ n ∈ diff' dNames (eventNames (c ++ o)), n ∈ diff' dNames (eventNames c) := by
+  obtain ⟨_, hrun⟩ := ctfTR_ok_inv target ds o c _ h
+  generalize hr : (some (x, some ev) : Option Answer) = r at hrun
+  cases hrun with
+  | fail => cases hr
+  | zero => cases hr
+  | answer dstar dNames q simplified a h2 hu h4 =>
+    obtain ⟨expr, he, _, ha⟩ := line4C_ok_inv ds o c dNames q simplified a h4
+    subst ha
+    cases hr
+    exact ⟨dstar, dNames, q, simplified, h2, hu, line4Expr_ok_inv _ _ _ _ _ he, diff_oc_subset dNames o c⟩
+
+/-- **shape of the returned event**: the outcomes followed by a sub-list of the conditions, each reduced to its graph
+vertex and paired with its value from the query (all values present) -/
+theorem ctfTR_event_shape (target : MG Name) (ds : List Domain) (o c : Event) (x : Expr) (ev : Event)
+    (h : ctfTR target ds o c = .ok (some (x, some ev))) :
+    (∃ c', c'.Sublist c ∧ ev = (o ++ c').map fun p => (p.1.base, p.2)) ∧ ∀ p ∈ ev, p.2.isSome = true := by
+  obtain ⟨hv, hrun⟩ := ctfTR_ok_inv target ds o c _ h
+  generalize hr : (some (x, some ev) : Option Answer) = r at hrun
+  cases hrun with
+  | fail => cases hr
+  | zero => cases hr
+  | answer dstar dNames q simplified a h2 hu h4 =>
+    obtain ⟨expr, _, _, ha⟩ := line4C_ok_inv ds o c dNames q simplified a h4
+    subst ha
+    cases hr
+    obtain ⟨c', hsub, hev⟩ := line4Event_shape x o c
+    refine ⟨⟨c', hsub, hev⟩, ?_⟩
+    rw [hev]
+    intro p hp
+    obtain ⟨p0, hp0, rfl⟩ := List.mem_map.1 hp
+    apply (validateC_strict target ds o c hv).1 p0
+    rcases List.mem_append.1 hp0 with h' | h'
+    · exact List.mem_append_left _ h'
+    · exact List.mem_append_right _ (hsub.subset h')
+
+/-- **the expression `Q` of Algorithm 2 for `D*` is never `Zero()` and has the expected vocabulary** (`QGood`): it is a
+`Sum.safe` of a `Product.safe` of expressions that Tian's IDENTIFY builds from the domains' distributions, each a
+Probability / Sum / Product / Fraction over variables of its domain's distribution and plain graph vertices
+(Y0/Lemmas/CtfTrAlg3Q.lean: `identify_good`).  So the `Fraction` constructor of line 4 never raises
+`ZeroDivisionError`, and the third final check passes when the vertices are variables of the distributions. -/
+theorem ctfTR_q_good (target : MG Name) (ds : List Domain) (o c : Event)
+    (hv : validateC target ds o c = .ok ()) (hwf : target.WF) (hds : ∀ d ∈ ds, d.graph.WF)
+    (hbiT : ∀ d ∈ ds, ∀ a b, d.graph.BiEdge a b → Trso.isTnode a = false) (hplain : EventVarsPlain (o ++ c)) :
+    QGood target ds o c :=
+  qGood_holds target ds o c hv hwf hds hbiT hplain
+
+/-- **C09, "never another error", Algorithm 3.**  An input accepted by the conditional validator, on graphs built by
+`from_edges`, with query variables as the public wrapper builds them and selection diagrams that agree with the target
+graph (`EventVarsPlain`, `DomainsAgree`: the hypotheses of `ctfTRu_no_internal_error_partial`), is answered or refused —
+`ctfTR` returns no error at all — outside the crash classes, each a decidable predicate on the input:
+* `OutcomesFound = false`: some outcome variable `Y_x` is not found in the ancestral components under its own name
+  (they store `‖Y_x‖` of the graph without the edges out of the conditioned ancestors): `ValueError('empty list for the
+  event')` from Algorithm 2's validator when no outcome is found, `KeyError` of the fifth final check when some are
+  (findings `crash:ctfTR-derived-event-rejected`, `crash:ctfTR-final-check`);
+* `DstarOneWorld = false`: `D*` names a vertex in two worlds (then the dict of the final checks keeps one of two values);
+* `OutcomeNotCondition = false`: an outcome shares its vertex with a condition (fifth final check);
+(Every vertex is a variable of every domain's distribution — `PopsCoverNodes`, needed by the third final check — because
+the validator checks it: `popsCover_of_validateC`.) -/
+theorem ctfTR_no_internal_error_partial (target : MG Name) (ds : List Domain) (o c : Event)
+    (hv : validateC target ds o c = .ok ()) (hwf : target.WF) (hds : ∀ d ∈ ds, d.graph.WF)
+    (hdom : DomainsAgree target ds) (hplain : EventVarsPlain (o ++ c))
+    (hfound : OutcomesFound target o c = true) (hone : DstarOneWorld target o c = true)
+    (hdisj : OutcomeNotCondition o c = true) :
+    ∀ err, ctfTR target ds o c ≠ .error err :=
+  ctfTR_total_of_parts target ds o c hv hwf hds hdom hplain hfound hone hdisj (popsCover_of_validateC target ds o c hv)
+    (qGood_holds target ds o c hv hwf hds (fun d hd => (hdom d hd).2) hplain)
+
+/-- the composition behind it, with the facts about the domains' distributions and about `Q` as hypotheses
+(`PopsCoverNodes`, `QGood`; they hold by `popsCover_of_validateC` and `ctfTR_q_good`) -/
+theorem ctfTR_no_internal_error_of_parts (target : MG Name) (ds : List Domain) (o c : Event)
+    (hv : validateC target ds o c = .ok ()) (hwf : target.WF) (hds : ∀ d ∈ ds, d.graph.WF)
+    (hdom : DomainsAgree target ds) (hplain : EventVarsPlain (o ++ c))
+    (hfound : OutcomesFound target o c = true) (hone : DstarOneWorld target o c = true)
+    (hdisj : OutcomeNotCondition o c = true) (hpop : PopsCoverNodes target ds) (hq : QGood target ds o c) :
+    ∀ err, ctfTR target ds o c ≠ .error err :=
+  ctfTR_total_of_parts target ds o c hv hwf hds hdom hplain hfound hone hdisj hpop hq
+
+/-- with the trichotomy: such an input is answered or refused -/
+theorem ctfTR_answers_or_fails (target : MG Name) (ds : List Domain) (o c : Event)
+    (hv : validateC target ds o c = .ok ()) (hwf : target.WF) (hds : ∀ d ∈ ds, d.graph.WF)
+    (hdom : DomainsAgree target ds) (hplain : EventVarsPlain (o ++ c))
+    (hfound : OutcomesFound target o c = true) (hone : DstarOneWorld target o c = true)
+    (hdisj : OutcomeNotCondition o c = true) :
+    (∃ a, ctfTR target ds o c = .ok (some a)) ∨ ctfTR target ds o c = .ok none := by
+  rcases ctfTR_trichotomy target ds o c hv with h | h | ⟨err, herr, _⟩
+  · exact Or.inl h
+  · exact Or.inr h
+  · exact absurd herr (ctfTR_no_internal_error_partial target ds o c hv hwf hds hdom hplain hfound hone hdisj err)
+
+/-- the parts, for reference: lines 1-2 never raise (`line2C_ok`), Algorithm 2's validator accepts a non-empty `D*`
+(`validateU_dstar`), and line 4 never raises under the stated facts (`line4C_ok`) -/
+theorem ctfTR_line2_total (target : MG Name) (hwf : target.WF) (o c : Event)
+    (ho : ∀ p ∈ o, VarOK target p.1) (hc : ∀ p ∈ c, VarOK target p.1) :
+    ∃ dstar dNames, line2C target o c = .ok (dstar, dNames) := by
+  obtain ⟨_, dstar, dNames, _, h, _⟩ := line2C_ok target hwf o c ho hc
+  exact ⟨dstar, dNames, h⟩
+
+-- OPEN: ctfTR_no_internal_error (Algorithm 3, for every validated input)
+--   theorem ctfTR_no_internal_error (hv : validateC target ds o c = .ok ()) (hwf : target.WF) (hds : ∀ d ∈ ds, d.graph.WF)
+--       (hdom : DomainsAgree target ds) (hplain : EventVarsPlain (o ++ c)) : ∀ err, ctfTR target ds o c ≠ .error err
+--   FALSE of the current code without `OutcomesFound`: witness `a3Miss` below (ValueError from Algorithm 2's validator on
+--   the empty D*), confirmed on the Python (findings crash:ctfTR-derived-event-rejected, crash:ctfTR-final-check).
+--   OPEN whether the two other class hypotheses of `ctfTR_no_internal_error_partial` are needed:
+--   * `DstarOneWorld`: in every run seen so far with a vertex in two worlds, Algorithm 2 answers FAIL (the two copies land
+--     in one ctf-factor with inconsistent subscripts) before line 4 is reached; proving it needs the ctf-factor grouping
+--     of line 2 of Algorithm 2 on the simplified event;
+--   * `OutcomeNotCondition`: the fifth final check then needs "the outcome's vertex occurs in Q", i.e. a LOWER bound on the
+--     variables of IDENTIFY's expressions (only the upper bound `QGood` is proved).
+--   No run of ./check C09 produced an exception on an input with `OutcomesFound = true` (4371 conditional cases of the
+--   quick tier, seed 0: all 1785 internal errors have `OutcomesFound = false`).
+
+/-! ### non-vacuity for Algorithm 3: Example 4.5-like `P*(y_x | x')` on figure 2a (corpus), and a crash-class witness -/
+
+/-- `Y_x = y` -/
+def a3Out : Event := [({ name := 2, ivs := [⟨1, false⟩] }, some ⟨2, false⟩)]
+/-- `X = x'` -/
+def a3Cond : Event := [({ name := 1 }, some ⟨1, true⟩)]
+
+example : validateC fig2a [fig2dom1, fig2dom2] a3Out a3Cond = .ok () := by decide +kernel
+example : isAnswerWithEvent (ctfTR fig2a [fig2dom1, fig2dom2] a3Out a3Cond) = true := by decide +kernel
+example : OutcomesFound fig2a a3Out a3Cond = true ∧ DstarOneWorld fig2a a3Out a3Cond = true ∧
+    OutcomeNotCondition a3Out a3Cond = true := by decide +kernel
+example : popsCoverCheck fig2a [fig2dom1, fig2dom2] = true ∧ qGoodCheck fig2a [fig2dom1, fig2dom2] a3Out a3Cond = true := by
+  decide +kernel
+
+/-- the theorem applies to the example -/
+example : ∀ err, ctfTR fig2a [fig2dom1, fig2dom2] a3Out a3Cond ≠ .error err :=
+  ctfTR_no_internal_error_partial _ _ _ _ (by decide +kernel) (MG.wf_fromEdges _ _ _)
+    (by intro d hd
+        simp only [List.mem_cons, List.not_mem_nil, or_false] at hd
+        rcases hd with rfl | rfl <;> exact MG.wf_fromEdges _ _ _)
+    fig2_domainsAgree (by unfold EventVarsPlain; decide) (by decide +kernel) (by decide +kernel) (by decide +kernel)
+
+/-- the returned event of the example is `Y = y, X = x'` -/
+example : (match ctfTR fig2a [fig2dom1, fig2dom2] a3Out a3Cond with
+    | .ok (some (_, some ev)) => decide (ev = [(Var.plain 2, some ⟨2, false⟩), (Var.plain 1, some ⟨1, true⟩)])
+    | _ => false) = true := by decide +kernel
+
+/-- **crash-class witness `a3Miss`** (finding `crash:ctfTR-derived-event-rejected`, as the Python): two isolated nodes
+`X`, `Y`; `P*(Y_x = y | X = x)`.  The components store `‖Y_x‖ = Y`, the outcome `Y_x` is not found, `D*` is empty and
+Algorithm 2's validator raises `ValueError` after the conditional validator accepted the input. -/
+def a3MissGraph : MG Name := MG.fromEdges [1, 2] [] []
+def a3MissDom : Domain :=
+  { graph := MG.fromEdges [1, 2] [] [], topo := [1, 2], policy := [],
+    pop := .prob (some (Var.plain 1001)) (TrDsl.plainVars [1, 2]) [] }
+def a3MissOut : Event := [({ name := 2, ivs := [⟨1, false⟩] }, some ⟨2, false⟩)]
+def a3MissCond : Event := [({ name := 1 }, some ⟨1, false⟩)]
+
+example : validateC a3MissGraph [a3MissDom] a3MissOut a3MissCond = .ok () := by decide +kernel
+example : OutcomesFound a3MissGraph a3MissOut a3MissCond = false := by decide +kernel
+example : isInternal "ValueError" (ctfTR a3MissGraph [a3MissDom] a3MissOut a3MissCond) = true := by decide +kernel
+/-- the same query with the minimal outcome `Y` is answered -/
+example : isAnswerWithEvent (ctfTR a3MissGraph [a3MissDom] [({ name := 2 }, some ⟨2, false⟩)] a3MissCond) = true := by
+  decide +kernel
+
+/-- check 15 of the validators (`v in expression.get_variables()` for every graph vertex `v`) is a test on `Variable`
+OBJECTS: the distribution `PP[π1](Y_x)` names `X` and `Y` but contains neither as a plain variable, and is rejected (as
+the Python: `ValueError`, "some of the vertices in a domain graph do not appear in the expression") -/
+def a3PopDom : Domain :=
+  { graph := MG.fromEdges [] [(1, 2)] [], topo := [1, 2], policy := [],
+    pop := .prob (some (Var.plain 1001)) [{ name := 2, ivs := [⟨1, false⟩] }] [] }
+example : validateU (MG.fromEdges [] [(1, 2)] []) [a3PopDom] [({ name := 2 }, some ⟨2, false⟩)] =
+    .error (.invalidInput "ValueError") := by decide +kernel
 
 end CtfTr
 end Y0
